@@ -164,9 +164,94 @@ func runC14Seq(t *c14Task) *c14Result {
 					}
 				}
 			}
+			// iterators positioned before the LAST operation of the sequence and moved after it: a
+			// reader may be parked anywhere while the writer inserts, overwrites or deletes
+			type heldIt struct {
+				it    iterator.Iterator
+				fwd   bool
+				valid bool
+				key   string
+				how   string
+			}
+			var its []heldIt
+			if i == len(seq)-1 && op != "reset" {
+				for _, fwd := range []bool{true, false} {
+					starts := []string{"First", "Last"}
+					for _, p := range c14Probes {
+						starts = append(starts, "Seek:"+p)
+					}
+					for _, st := range starts {
+						it := db.NewIterator(nil)
+						var ok bool
+						switch {
+						case st == "First":
+							ok = it.First()
+						case st == "Last":
+							ok = it.Last()
+						default:
+							ok = it.Seek([]byte(st[5:]))
+						}
+						h := heldIt{it: it, fwd: fwd, valid: ok, how: st}
+						if ok {
+							h.key = string(it.Key())
+						}
+						its = append(its, h)
+					}
+				}
+			}
 			if v := c14Apply(db, m, op); v != "" {
 				res.Viol = append(res.Viol, fmt.Sprintf("sequence %v step %d: %s", seq, i, v))
 				return
+			}
+			if len(its) > 0 {
+				ever := map[string]bool{}
+				for _, o := range seq {
+					if o[0] == 'p' {
+						ever[o[1:2]+"="+c14Vals[int(o[2]-'0')]] = true
+					}
+				}
+				for _, h := range its {
+					v := func() (viol string) {
+						defer func() {
+							if r := recover(); r != nil {
+								viol = fmt.Sprintf("panic: %v", r)
+							}
+						}()
+						if !h.valid {
+							return "" // parked off either end: where it goes next is not constrained here
+						}
+						prev := h.key
+						for step := 0; step < 4; step++ {
+							var ok bool
+							if h.fwd {
+								ok = h.it.Next()
+							} else {
+								ok = h.it.Prev()
+							}
+							if !ok {
+								return ""
+							}
+							k, val := string(h.it.Key()), string(h.it.Value())
+							if (h.fwd && k <= prev) || (!h.fwd && k >= prev) {
+								return fmt.Sprintf("moved from %q to %q: out of order", prev, k)
+							}
+							if !ever[k+"="+val] {
+								return fmt.Sprintf("yields %q=%q which was never stored", k, val)
+							}
+							prev = k
+						}
+						return ""
+					}()
+					h.it.Release()
+					if v != "" {
+						dir := "Next"
+						if !h.fwd {
+							dir = "Prev"
+						}
+						res.Viol = append(res.Viol, fmt.Sprintf("sequence %v: iterator positioned with %s on %q before the last operation, then %s: %s", seq, h.how, h.key, dir, v))
+						return
+					}
+				}
 			}
 			for _, h := range hs {
 				if string(h.v) != h.copy {
